@@ -330,7 +330,7 @@ class C20(HistoryCheck):
         else:
             ctx.case["policy"] = ctx.case_in.get("policy")
             sched = Sched(recorded=recorded, step_cap=10 ** 7)
-        if ctx.tier == "thorough" and not ctx.replay and src.chance(0.5):
+        if ctx.tier == "thorough" and not ctx.replay and (src.chance(0.5) or getattr(self, "warming", False)):
             ctx.case["opcode"] = True
         if ctx.case_in and ctx.case_in.get("opcode"):
             ctx.case["opcode"] = True
